@@ -524,3 +524,18 @@ Print Assumptions C11_fragmentify_total.
 
 Example C11_resegment_total_example : 16 * lenN ex_samples + bytes_of ex_samples + 200 < 2147483648.
 Proof. vm_compute. reflexivity. Qed.
+
+(* the -lazy writer in total form: the same statement as C11_segmenter_total for makeSingleTrackSegmentsLazyWrite
+   (AddSampleToTrack never fails on the own id, Encode of the metadata-only fragment succeeds, copyMediaData
+   succeeds: C11_copy_media_data) *)
+Theorem C11_segmenter_lazy_total : forall (f : pfile) (trs : list itrack) d ivss,
+  Forall (fun t => C09Spec.consistent (snd t) = true /\ data_ok f (snd t) = true /\ one_offset_box (snd t) = true) trs ->
+  segment_plan (map itrack_of trs) d = Ok ivss ->
+  Forall2 (fun t ivs => forall opt T pos0 (tx : C05Model.trex),
+             tx_track tx = T -> pos0 < 4611686018427387904 -> forallb (seg_small (snd t)) ivs = true ->
+             exists outs res, seg_track_lazy opt f (snd t) T ivs = Ok outs /\
+                              read_all (fun p => read_back tx pos0 (snd p) (fst p)) outs = Ok res /\
+                              map Some (concat res) = expansion f (snd t) /\
+                              Forall (fun o => o <> []) res) trs ivss.
+Proof. exact plan_lazy_total. Qed.
+Print Assumptions C11_segmenter_lazy_total.
